@@ -132,3 +132,24 @@ package standard
 //@   loop 1
 //@     invariant -1 <= rangeindex && rangeindex < len(s.secondaryValidatorRegistrationsSubmitters) && calls(go) == rangeindex + 1
 //@   ensures len(consensusRegistrations) > 0 ==> calls(go) == len(s.secondaryValidatorRegistrationsSubmitters)
+//@
+//@ // ---- C20: the goroutines started for unblinding all end ----
+//@
+//@ func (*Service).unblindProposal
+//@   requires proposal != nil && nolocks()
+//@   requires forall k int :: 0 <= k && k < len(providers) ==> providers[k] != nil
+//@   chaninv respCh (m): m != nil
+//@   // a relay's goroutine is only started while the result channel has room for one more result than there are
+//@   // goroutines already: as each sends at most once, none can block once the first block has been taken
+//@   ghost nstarted Int = 0
+//@   at call go#1: assert nstarted < chancap(arg2)
+//@   at call go#1: ghost nstarted = nstarted + 1
+//@   loop 1
+//@     invariant nstarted == rangeindex + 1
+//@
+//@ func (*Service).unblindProposal$1
+//@   thread
+//@   requires proposal != nil && provider != nil && !closed(ch)
+//@   assumes call UnblindProposal (r, err): (err == nil ==> r != nil) && (err != nil ==> r == nil)
+//@   chaninv ch (m): m != nil
+//@   exit sends() <= 1
